@@ -46,6 +46,7 @@ class Failure:
     where: str          # human-readable origin(s)
     name: str = ""      # obligation name (stable key)
     rendered: str = ""
+    hint: bool = False  # the failing statement is proof text of the spec (an `assert` in a hint block or a lemma call), not a contract clause
 
 
 @dataclass
@@ -255,7 +256,7 @@ def _canary_cache_put(outdir, key, stderr_text):
 
 
 def scan_trusted(text):
-    """Assumption scan of the generated file (DESIGN 3.7)."""
+    """Assumption scan of the generated file (DESIGN 2.6)."""
     res = []
     lines = text.split("\n")
     for i, l in enumerate(lines):
@@ -552,7 +553,8 @@ class VerusUnit:
                 name = "%s::%s[%s]" % (fn_name, kind, label or "?")
             else:
                 name = "%s::%s@%s" % (fn_name, kind, (Lp.ofile + ":" + str(Lp.oline)) if Lp else "?")
-            res.failures.append(Failure(fn_name, kind, label, tuple(tags), msg, "; ".join(wheres), name, d.get("rendered", "")[:3000]))
+            is_hint = bool(Lp is not None and str(Lp.ofile).startswith("specs/") and kind in ("assert", "pre"))
+            res.failures.append(Failure(fn_name, kind, label, tuple(tags), msg, "; ".join(wheres), name, d.get("rendered", "")[:3000], is_hint))
         if res.tool_errors:
             res.status = "undecided"
             res.undecided_reason = "verus reported %d non-obligation error(s): %s" % (
